@@ -126,7 +126,8 @@ Section RawOps.
         - repeat (split; [reflexivity|]). left. exact Hge.
         - split; [reflexivity|]. left. exact Hge. }
     change (reserve_rehash_full_capacity (zn (mask t))) with (z_cap (mask t)).
-    unfold reserve_rehash_in_place, reserve_rehash_resize_target.
+    rewrite (reserve_rehash_in_place_char (items t + additional) (z_cap (mask t))) by lia.
+    unfold reserve_rehash_resize_target.
     assert (Hzc0 : (0 <= z_cap (mask t))%Z) by lia.
     destruct (Z.leb_spec (items t + additional) (z_cap (mask t) / 2)) as [Hle|Hgt].
     - (* rehash in place *)
